@@ -127,17 +127,54 @@ impl ReadOptionsBuilder {
 }
 
 // ---- ghost log of what a handler appends ----
-pub struct Hx { pub ghost appended: Seq<Frame>, pub ghost processed: Seq<Frame> }
+pub struct Hx { pub ghost appended: Seq<Frame>, pub ghost processed: Seq<Frame>, pub ghost incoming: Seq<Frame> }
 #[verifier::external_body] pub struct Store { _p: () }
 #[derive(Debug)] pub struct AppendError;
 impl Store {
     // Store::append as the handler sees it (its own contract: unit store_ops)
     #[verifier::external_body]
     pub fn append(&self, Tracked(hx): Tracked<&mut Hx>, f: Frame) -> (r: Result<Frame, AppendError>)
-        ensures final(hx).appended == old(hx).appended.push(f), final(hx).processed == old(hx).processed,
+        ensures final(hx).appended == old(hx).appended.push(f), final(hx).processed == old(hx).processed, final(hx).incoming == old(hx).incoming,
     { unimplemented!() }
 }
 //@@ default_after_all: store.append( ==> Tracked(hx),
+//@@ default_after_all: .process_frame( ==> Tracked(hx),
+//@@ default_after_all: .recv( ==> Tracked(hx),
+
+// a frame this handler emitted itself: its meta carries this handler's id (C14)
+spec fn own_output(f: Frame, hid: Scru128Id) -> bool {
+    f.meta matches Some(m) && serde_json::is_object(m) && serde_json::obj(m).contains_key("handler_id"@)
+        && serde_json::strv(serde_json::obj(m)["handler_id"@]) == Some(id_str(id_u128(hid)))
+}
+#[verifier::external_body] pub struct FrameReceiver { _p: () }
+pub struct ProcessError { _p: () }
+impl std::fmt::Display for ProcessError { #[verifier::external_body] fn fmt(&self, f: &mut std::fmt::Formatter) -> std::fmt::Result { unimplemented!() } }
+pub proof fn axiom_fmt_req() ensures vstd::std_specs::fmt::fmt_req_all::<Scru128Id>(), vstd::std_specs::fmt::fmt_req_all::<ProcessError>() { admit(); }
+impl FrameReceiver {
+    // the next frame of the subscription (ghost: hx.incoming), or None when the stream ended
+    #[verifier::external_body]
+    pub fn recv(&mut self, Tracked(hx): Tracked<&mut Hx>) -> (r: Option<Frame>)
+        ensures final(hx).appended == old(hx).appended, final(hx).processed == old(hx).processed,
+            r matches Some(f) ==> old(hx).incoming.len() > 0 && f == old(hx).incoming[0] && final(hx).incoming == old(hx).incoming.drop_first(),
+            r is None ==> final(hx).incoming == old(hx).incoming,
+    { unimplemented!() }
+}
+#[verifier::external_body] pub fn json_stub() -> (r: serde_json::Value) { unimplemented!() }
+pub struct FrameBuilder { pub f: Frame }
+impl Frame {
+    #[verifier::external_body]
+    pub fn builder(topic: String, context_id: Scru128Id) -> (b: FrameBuilder)
+        ensures b.f.topic == topic, b.f.context_id == context_id, b.f.hash is None, b.f.meta is None, b.f.ttl is None,
+    { unimplemented!() }
+}
+impl FrameBuilder {
+    #[verifier::external_body] pub fn meta(self, m: serde_json::Value) -> (b: FrameBuilder) ensures b.f == (Frame { meta: Some(m), ..self.f }) { unimplemented!() }
+    #[verifier::external_body] pub fn build(self) -> (f: Frame) ensures f == self.f { unimplemented!() }
+}
+pub assume_specification<T, P: FnOnce(&T) -> bool> [Option::<T>::filter] (o: Option<T>, p: P) -> (r: Option<T>)
+    ensures match o { Some(x) => (r == Some(x) && call_ensures(p, (&x,), true)) || (r is None && call_ensures(p, (&x,), false)), None => r is None };
+pub assume_specification<'a> [<&'a str as PartialEq<String>>::eq] (a: &&'a str, b: &String) -> (r: bool)
+    ensures r == (a@ == b@);
 
 impl Handler {
 // ================= configure_read_options (C06, C14) =================
@@ -162,6 +199,45 @@ impl Handler {
         r.limit is None, //# handler.options.no_limit
 //@@ end
 
+// process_frame as the dispatch loop sees it: must never be handed the handler's own output (C14)
+    #[verifier::external_body]
+    fn process_frame(&mut self, Tracked(hx): Tracked<&mut Hx>, frame: &Frame, store: &Store) -> (r: Result<(), ProcessError>)
+        requires !own_output(*frame, old(self).id),
+        ensures final(self).id == old(self).id, final(self).context_id == old(self).context_id,
+            final(hx).processed == old(hx).processed.push(*frame), final(hx).incoming == old(hx).incoming,
+            old(hx).appended.len() <= final(hx).appended.len(),
+    { unimplemented!() }
+
+// ================= dispatch loop of serve (C14) =================
+//@@ slice file=src/handlers/handler.rs fn=serve impl=Handler name=serve_loop
+//@@ from: while let Some(frame) = recver.recv()
+//@@ through_block
+//@@ strip: await
+//@@ elide_arg: serde_json::json!( ==>
+//@@ rewrite: serde_json::json!( ==> json_stub(
+//@@ closure_spec: .and_then( @0 ==> -> (o: Option<&serde_json::Value>) ensures o == (if serde_json::is_object(*$1) && serde_json::obj(*$1).contains_key("handler_id"@) { Some(&serde_json::obj(*$1)["handler_id"@]) } else { None })
+//@@ closure_spec: .and_then( @1 ==> -> (o: Option<&str>) ensures match o { Some(s) => serde_json::strv(*$1) == Some(s@), None => serde_json::strv(*$1) is None }
+//@@ closure_spec: .filter( ==> -> (b: bool) ensures b == ((*$1)@ == id_str(id_u128(self.id)))
+//@@ loop_spec: while let Some(frame) = recver.recv()
+    invariant
+        self.id == old(self).id, self.context_id == old(self).context_id,
+        // the frames handed to process_frame so far are a subsequence, in order, of the frames received, none of them own output
+        forall|i: int| 0 <= i < hx.processed.len() - old(hx).processed.len() ==> !own_output(#[trigger] hx.processed[old(hx).processed.len() + i], self.id), //# handler.serve.never_own_output
+        old(hx).processed.len() <= hx.processed.len(),
+    decreases hx.incoming.len(),
+//@@ loop_top: while let Some(frame) = recver.recv()
+    broadcast use axiom_display_id;
+    proof { axiom_fmt_req(); }
+//@@ header
+#[verifier::loop_isolation(false)]
+fn serve_loop(&mut self, store: &Store, recver: &mut FrameReceiver, Tracked(hx): Tracked<&mut Hx>)
+    ensures
+        forall|i: int| 0 <= i < final(hx).processed.len() - old(hx).processed.len() ==> !own_output(#[trigger] final(hx).processed[old(hx).processed.len() + i], old(self).id), //# handler.serve.never_own_output
+{
+//@@ epilogue
+}
+//@@ end
+
 // ================= stamping loop of process_frame (C06, C14, C15) =================
 //@@ slice file=src/handlers/handler.rs fn=process_frame impl=Handler name=stamp_loop
 //@@ from: for mut output_frame in output_to_process
@@ -175,7 +251,7 @@ impl Handler {
         hx.appended.len() == old(hx).appended.len() + it.index@,
         forall|i: int| 0 <= i < old(hx).appended.len() ==> #[trigger] hx.appended[i] == old(hx).appended[i],
         forall|i: int| 0 <= i < it.index@ ==> stamped(#[trigger] hx.appended[old(hx).appended.len() + i], output_to_process@[i], self, frame), //# handler.stamp.every_output_stamped
-//@@ before_stmt?: output_frame.context_id =
+//@@ before_stmt?: let _ = store.append(
     proof {
         reveal_strlit("handler_id"); reveal_strlit("frame_id");
         assert("handler_id"@.len() != "frame_id"@.len());
